@@ -105,6 +105,9 @@ func leavesOf(txns []types.V2Transaction) (ls []leafInfo) {
 	return
 }
 
+// prevOutlineRaw is the wire form of the outline encoded last (any block, any subset).
+var prevOutlineRaw []byte
+
 var outlineEntry = func() *gen.Entry {
 	for _, e := range gen.Registry() {
 		if e.Type == reflect.TypeOf(gateway.RPCRelayV2BlockOutline{}) {
@@ -303,6 +306,23 @@ func checkBlock(ch *sim.Chain, parent consensus.State, b types.Block, bs consens
 			if dv.Err != nil {
 				return stats.Failf("C18/outline-codec", "decoding the outline RPC failed: %v", dv.Err)
 			}
+			// a relay loop reads every outline into one request object: the outline of the previous subset (other slots
+			// inline, other slots omitted) is decoded into the variable first, then this one; what the variable then holds
+			// must be this outline and nothing of the previous one
+			if prevOutlineRaw != nil && outlineEntry.DecodeInto != nil {
+				reused := reflect.New(outlineEntry.Type)
+				if err := outlineEntry.DecodeInto(prevOutlineRaw, reused); err == nil {
+					if err := outlineEntry.DecodeInto(raw, reused); err != nil {
+						return stats.Failf("C18/outline-reused-receiver", "decoding the outline into a request object that held the previous outline failed: %v", err)
+					}
+					rb := reused.Elem().Interface().(gateway.RPCRelayV2BlockOutline).Block
+					if rb.ID(parent) != b.ID() || !sameHashes(rb.Missing(), wantMissing) {
+						return stats.Failf("C18/outline-reused-receiver", "an outline decoded into the request object that held the previous outline reports missing %v, want %v (same ID: %v)", rb.Missing(), wantMissing, rb.ID(parent) == b.ID())
+					}
+					rec.Label("outline:decoded-into-reused-request")
+				}
+			}
+			prevOutlineRaw = raw
 			got := dv.V.Interface().(gateway.RPCRelayV2BlockOutline).Block
 			if got.ID(parent) != b.ID() || !sameHashes(got.Missing(), wantMissing) {
 				return stats.Failf("C18/outline-codec", "outline differs after the gateway codec round trip")
@@ -472,6 +492,7 @@ func reverseV2(s []types.V2Transaction) []types.V2Transaction {
 }
 
 func check(c sim.ChainCase) error {
+	prevOutlineRaw = nil // per case: a replayed case sees exactly the sequence of outlines the generated case saw
 	var decoys []types.V2Transaction
 	var decoysV1 []types.Transaction
 	hooks := sim.Hooks{
